@@ -185,7 +185,15 @@ def _run_case(case, ctx):
         rk = [int(rs.randint(1, min(s, 3) + 1)) for s in shp]
         core = rs.standard_normal(rk)
         fs = [gen.orth(rs, s, r) for s, r in zip(shp, rk)]
-        nfix = int(rs.randint(1, order + 1))
+        variant = gen.choice(rs, ["real", "real", "complex", "masked"])
+        mask = None
+        if variant == "complex":      # complex data and a complex orthonormal start: every projection is a conjugate transpose
+            X = X + 1j * rs.standard_normal(shp)
+            core = core + 1j * rs.standard_normal(rk)
+            fs = [np.linalg.qr(rs.standard_normal((s_, r_)) + 1j * rs.standard_normal((s_, r_)))[0] for s_, r_ in zip(shp, rk)]
+        elif variant == "masked":     # missing entries: the supplied core is still the starting point
+            mask = (rs.uniform(size=shp) < 0.8).astype(float)
+        nfix = int(rs.randint(0 if variant != "real" else 1, order + 1))
         fixed = rs.choice(order, size=nfix, replace=False).tolist()   # in any order
         if rs.rand() < 0.4:
             fixed = sorted(fixed)
@@ -197,13 +205,15 @@ def _run_case(case, ctx):
         if form == "wrapper":
             init = TuckerTensor(init)
         all_fixed = len(fixed) == order
-        desc = {"algo": algo, "shape": shp, "rank": rk, "fixed": list(fixed), "fixed_sorted": list(fixed) == sorted(fixed), "sweeps": sweeps, "form": form}
+        desc = {"algo": algo, "shape": shp, "rank": rk, "fixed": list(fixed), "fixed_sorted": list(fixed) == sorted(fixed), "sweeps": sweeps, "form": form, "variant": variant}
+        ctx.count("tucker_variant/" + variant)
         ctx.nontriv(desc)
         ctx.sample({"case": desc}, 3)
         init_dense, absb, _ = ref.tucker_dense(core, fs)
         scale = float(np.max(absb)) + 1e-300
         try:
-            out = D.tucker(X, rk, fixed_factors=(list(fixed) if isinstance(fixed, list) else fixed), n_iter_max=sweeps, init=init, tol=0, random_state=seed)
+            ff = (list(fixed) if isinstance(fixed, list) else fixed) if len(fixed) else None
+            out = D.tucker(X, rk, fixed_factors=ff, n_iter_max=sweeps, init=init, tol=0, random_state=seed, **({"mask": mask} if mask is not None else {}))
         except Exception as e:  # noqa
             viol("fixed-raises-%s" % type(e).__name__, "all-fixed" if all_fixed else "some-fixed", "tucker(fixed_factors=%s) raised %s: %s" % (fixed, type(e).__name__, str(e)[:150]), desc)
             return
@@ -217,7 +227,7 @@ def _run_case(case, ctx):
             ctx.count("clause/zero-budget" if sweeps == 0 else "clause/all-fixed")
             d0 = ref.tucker_dense(oc, of)[0]
             if not _close(d0, init_dense, scale * 10, eps):
-                viol("zero-budget" if sweeps == 0 else "all-fixed", "any", "returned Tucker tensor represents a different tensor than the init (max diff %.3g)" % float(np.nanmax(np.abs(d0 - init_dense))), desc)
+                viol("zero-budget" if sweeps == 0 else "all-fixed", "any" if variant == "real" else variant, "returned Tucker tensor represents a different tensor than the init (max diff %.3g)" % float(np.nanmax(np.abs(d0 - init_dense))), desc)
         return
 
     if algo == "nn_tucker_hals":
